@@ -242,3 +242,27 @@ def runAll (c : Nat) : List Nat → (Nat → Nat) × Nat
   | p :: ps => let (T, n) := runAll c ps; let (T', k) := ins c T p; (T', n + k)
 #eval (runAll 2 [1, 3, 0, 2]).2   -- inserted in order 2,0,3,1 : inversions = 3
 
+
+/-! ### the whole loop: inserting a sequence counts its inversions -/
+
+def inversions : List Nat → Nat
+  | [] => 0
+  | p :: ps => inversions ps + ps.countP (fun q => decide (p < q))
+
+theorem treeInv_zero (c : Nat) : TreeInv c [] (fun _ => 0) := by
+  intro m d a _ _; simp [cnt]
+
+/-- the accumulator tree loop of `countCrossings`, on positions below 2^c (head of the list = last inserted) -/
+theorem runAll_spec (c : Nat) : ∀ (ps : List Nat), (∀ q ∈ ps, q < 2 ^ c) →
+    TreeInv c ps (runAll c ps).1 ∧ (runAll c ps).2 = inversions ps
+  | [], _ => ⟨treeInv_zero c, rfl⟩
+  | p :: ps, h => by
+    have hps := fun q hq => h q (List.mem_cons_of_mem _ hq)
+    have hp := h p (List.mem_cons_self ..)
+    obtain ⟨ih1, ih2⟩ := runAll_spec c ps hps
+    have h1 := insert_tree c ps p (runAll c ps).1 ih1 hp
+    have h2 := insert_count c ps p (runAll c ps).1 ih1 hps hp
+    simp only [runAll, inversions]
+    exact ⟨h1, by rw [h2, ih2]⟩
+
+#print axioms runAll_spec
